@@ -53,6 +53,10 @@ CONSTANTS Writers, Subs, Ids, MaxV,
                                \* is still held (a subscriber registering later has the change in its seed);
                                \* FALSE = pinned: copied when the publication begins, after the lock was released
           MayCancel,           \* subscribers may cancel
+          DeleteHoldsLock,     \* TRUE = the code: Delete keeps the write lock while it sends its REMOVE (the listeners it
+                               \* sends to are the ones registered at the removal); FALSE: it unlocks first and copies the
+                               \* listeners when the send begins (DSnap) -- a subscription opened in between has a seed
+                               \* without the item and is still sent its REMOVE
           Equiv,               \* "none": no equivalence configured.  "coll" / "val": the resource suppresses changes
                                \* equivalent (here: equal) to what the subscriber holds -- a Collection judges a change
                                \* against what the receiver was last sent for the id (its old value if it was sent
@@ -113,7 +117,7 @@ Init ==
   /\ snap = [s \in Subs |-> [i \in Ids |-> Absent]]
   /\ fwd = [s \in Subs |-> [st |-> "none", q |-> <<>>, h |-> [i \in Ids |-> NoHeld]]]
   /\ view = [s \in Subs |-> [i \in Ids |-> Absent]]
-  /\ seen = [s \in Subs |-> [ids |-> [i \in Ids |-> FALSE], seqs |-> {}, after |-> 0]]
+  /\ seen = [s \in Subs |-> [ids |-> [i \in Ids |-> FALSE], seqs |-> {}, after |-> 0, bad |-> FALSE]]
   /\ commitLog = <<>>
   /\ sched = <<>>
 
@@ -280,15 +284,26 @@ DLock(w) ==
             /\ UNCHANGED <<store, commitLog, pub, mu>>
        ELSE /\ store' = [store EXCEPT ![c.id] = [v |-> Absent, ver |-> 0]]
             /\ commitLog' = Append(commitLog, [w |-> w, id |-> c.id, pre |-> cur.v, post |-> Absent])
-            /\ IF lsn = <<>>
+            /\ IF lsn = <<>> /\ DeleteHoldsLock
                  THEN /\ pc' = [pc EXCEPT ![w] = "done"] /\ UNCHANGED <<pub, mu>>
                       /\ loc' = [loc EXCEPT ![w].ret = cur.v, ![w].err = "OK"]
                  ELSE /\ pub' = [pub EXCEPT ![w] = [id |-> c.id, v |-> Absent, seq |-> Len(commitLog) + 1, add |-> FALSE,
                                                      targets |-> lsn, copy |-> lsn, gc |-> FALSE, pre |-> cur.v]]
-                      /\ pc' = [pc EXCEPT ![w] = "ddeliver"]
+                      /\ pc' = [pc EXCEPT ![w] = IF DeleteHoldsLock THEN "ddeliver" ELSE "dsnap"]
                       /\ loc' = [loc EXCEPT ![w].ret = cur.v]
-                      /\ mu' = Take(w, [mu EXCEPT !.w = w])  \* Delete sends while holding the write lock
+                      /\ mu' = Take(w, IF DeleteHoldsLock THEN [mu EXCEPT !.w = w] ELSE mu)  \* Delete sends while holding the write lock
   /\ UNCHANGED <<nextVer, prog, lsn, kind, spc, snap, fwd, view, seen>>
+
+\* (deviation only) the unlocked Delete begins its send: the listeners are copied now
+DSnap(w) ==
+  /\ pc[w] = "dsnap"
+  /\ Step("DSnap", w)
+  /\ IF lsn = <<>>
+       THEN /\ pc' = [pc EXCEPT ![w] = "done"] /\ loc' = [loc EXCEPT ![w].err = "OK"] /\ mu' = Drop(w, mu)
+            /\ UNCHANGED pub
+       ELSE /\ pub' = [pub EXCEPT ![w].targets = lsn, ![w].copy = lsn]
+            /\ pc' = [pc EXCEPT ![w] = "ddeliver"] /\ UNCHANGED <<loc, mu>>
+  /\ UNCHANGED <<store, nextVer, prog, lsn, kind, spc, snap, fwd, view, seen, commitLog>>
 
 ----------------------------------------------------------------------------
 (* Subscribers                                                              *)
@@ -341,7 +356,13 @@ Recv(s) ==
   /\ Step("Recv", s)
   /\ LET e == Head(fwd[s].q) IN
      /\ view' = [view EXCEPT ![s][e.id] = e.v]
-     /\ seen' = [seen EXCEPT ![s].ids[e.id] = TRUE, ![s].seqs = seen[s].seqs \cup {e.seq}]
+     /\ seen' = [seen EXCEPT ![s].ids[e.id] = TRUE, ![s].seqs = seen[s].seqs \cup {e.seq},
+                              \* the stream is an edit script of the seed: a removal is of an item the consumer has,
+                              \* an add of one it has not, an update of one it has
+                              ![s].bad = @ \/ (/\ ~kind[s].uo /\ ~kind[s].lossy
+                                               /\ \/ e.v = Absent /\ view[s][e.id] = Absent
+                                                  \/ e.v # Absent /\ e.add /\ view[s][e.id] # Absent
+                                                  \/ e.v # Absent /\ ~e.add /\ view[s][e.id] = Absent)]
      /\ fwd' = [fwd EXCEPT ![s] = [st |-> IF Len(fwd[s].q) = 1 THEN "wait"
                                           ELSE IF fwd[s].st = "seeding" /\ ~Head(Tail(fwd[s].q)).add THEN "hold"
                                           ELSE IF fwd[s].st = "seeding" /\ Head(Tail(fwd[s].q)).seq # 0 THEN "hold"
@@ -351,7 +372,7 @@ Recv(s) ==
 
 ----------------------------------------------------------------------------
 Next == \/ \E w \in Writers : Read(w) \/ Change(w) \/ Commit(w) \/ PubSnap(w) \/ Deliver(w)
-                              \/ DRead(w) \/ DCheck(w) \/ DLock(w)
+                              \/ DRead(w) \/ DCheck(w) \/ DLock(w) \/ DSnap(w)
         \/ \E s \in Subs : SubSnap(s) \/ SubListen(s) \/ Recv(s) \/ (MayCancel /\ SubCancel(s))
 Spec == Init /\ [][Next]_vars
 
@@ -393,6 +414,8 @@ Converged == AllDone => \A s \in Subs : Drained(s) =>
 \* has received the event of every such commit
 NoCommitMissed == AllDone => \A s \in Subs : Drained(s) /\ ~kind[s].lossy =>
                     \A k \in 1..Len(commitLog) : k > seen[s].after => k \in seen[s].seqs
+\* C04 under concurrency: what a backpressured subscriber receives is an edit script of its seed
+EditScript == \A s \in Subs : ~seen[s].bad
 NoLock == mu.w = NoW \/ pc[mu.w] \in {"deliver", "ddeliver", "pubsnap"}
 TypeOK == /\ mu.w \in Writers \cup {NoW} /\ mu.r \subseteq Subs /\ NoLock
           /\ mu.ser \in Writers \cup {NoW} \cup { 0 - s : s \in Subs }
